@@ -44,6 +44,9 @@ def run_walks(instances, steps, seed, shards=8):
     return by_name
 
 
+DIGESTS = {}     # instance name -> fingerprint of the loaded network (solution::verif::network_digest)
+
+
 def observed_caps(instances):
     """Capacities the loaded network reports for depots (used for defaulted, i.e. 'unlimited',
     depots: the schedule contracts are stated w.r.t. the capacity the implementation really uses;
@@ -60,6 +63,7 @@ def observed_caps(instances):
     for o in common.read_ndjson(outp):
         if o.get("ok"):
             caps[o["name"]] = {d["id"]: d["cap"] for d in o["obs"]["depots"]}
+            DIGESTS[o["name"]] = o["obs"].get("digest", "")
     os.remove(inp)
     os.remove(outp)
     os.rmdir(workdir)
